@@ -738,6 +738,7 @@ func runEngineQ(p *Prog, o *obls) {
 		} else if qs.listFld != "" {
 			used := map[string]bool{}
 			var removeArgsOK = true
+			pushIn, removeIn := map[*ssa.Function]string{}, map[*ssa.Function]bool{}
 			for _, fn := range p.Funcs {
 				instrsOf(fn, func(in ssa.Instruction) {
 					c, ok := in.(*ssa.Call)
@@ -749,7 +750,11 @@ func runEngineQ(p *Prog, o *obls) {
 					}
 					n := c.Call.StaticCallee().Name()
 					used[n] = true
+					if n == "PushBack" {
+						pushIn[fn] = p.instrPos(c)
+					}
 					if n == "Remove" {
+						removeIn[fn] = true
 						fc, ok := p.origin(c.Call.Args[1]).(*ssa.Call)
 						if !ok || fc.Call.StaticCallee() == nil || fc.Call.StaticCallee().Name() != "Front" || !loadOfField(p, fc.Call.Args[0], qs.listFld) {
 							removeArgsOK = false
@@ -771,6 +776,14 @@ func runEngineQ(p *Prog, o *obls) {
 			if !removeArgsOK {
 				bad = append(bad, "Remove is given something other than Front(): the element taken is not the oldest one")
 			}
+			// the side that takes packets out never puts one back: a packet re-queued at the back is behind every packet
+			// accepted since, those of its own stream included
+			for fn, at := range pushIn {
+				if removeIn[fn] {
+					bad = append(bad, fmt.Sprintf("%s both removes from the queue and inserts at its back (%s): a packet taken out and re-queued is overtaken by the packets accepted after it", fn.String(), at))
+				}
+			}
+			sort.Strings(bad)
 			if len(bad) > 0 {
 				o.bad("Q1", qs.typ, p.Pos(cons.Pos()), strings.Join(bad, "; "))
 			} else {
